@@ -43,7 +43,7 @@ QId(l, n) == IF l.k = "A" \/ n = "N" THEN Contract \o "." \o n ELSE n
 NomId(l, n) == LocPrefix(l) \o "." \o QId(l, n)
 
 \* set members are ordered by their IDs; within one location that is the order of the names
-NameOrder == <<"E1", "E2", "I1", "I2", "I3", "I4", "RI", "RI2", "RI3">>
+NameOrder == <<"E1", "E2", "E3", "I1", "I2", "I3", "I4", "RI", "RI2", "RI3">>
 Pos(n) == CHOOSE i \in 1..Len(NameOrder) : NameOrder[i] = n
 SortedNames(s) == SortSeq(SetToSeq(s), LAMBDA a, b : Pos(a) < Pos(b))
 RECURSIVE Join(_, _)
